@@ -402,6 +402,43 @@ def mon_c02(tr: Trace) -> list[Violation]:
             out.append(Violation("C02/unhandled_event_report", f"event T{ty} accepted by {sorted(expect | woken)}: UnhandledEvent published {len(unhandled)} times", _replay(tr)))
         if out:
             return out
+    # (e) waits registered with an auto-generated waiter id, tracked from the reducer's INPUTS (what the step
+    #     invocations asked for) rather than from the waiter table: an invocation that is still waiting for
+    #     (type, requirements) gets a matching event as its wait result
+    pending: dict[tuple, tuple] = {}  # (step, input uid) -> (waiter id, type, requirements)
+    if not tr.spec.get("_resumed"):
+        for c in _runner_calls(tr):
+            if c.error is not None or c.after is None:
+                continue
+            if isinstance(c.tick, T.TickStepResult):
+                key = (c.tick.step_name, getattr(c.tick.event, "uid", None))
+                for r in c.tick.result:
+                    if isinstance(r, R.AddWaiter) and str(r.waiter_id).startswith("waiter_"):
+                        pending[key] = (r.waiter_id, r.event_type, dict(r.requirements))
+                    elif isinstance(r, R.DeleteWaiter) and key in pending and pending[key][0] == r.waiter_id:
+                        del pending[key]
+                    elif isinstance(r, (R.StepWorkerResult, R.StepWorkerFailed)):
+                        pending.pop(key, None)
+            elif isinstance(c.tick, T.TickWaiterTimeout):
+                for k in [k for k, v in pending.items() if k[0] == c.tick.step_name and v[0] == c.tick.waiter_id]:
+                    del pending[k]
+            elif isinstance(c.tick, T.TickAddEvent):
+                e, tgt = c.tick.event, c.tick.step_name
+                want = {k for k, (wid, wty, req) in pending.items() if type(e) is wty and (tgt is None or tgt == k[0])
+                        and all(getattr(e, a, None) == v for a, v in req.items())}
+                for (name, uid) in sorted(want, key=repr):
+                    got = [w for w in c.after.workers[name].collected_waiters if w.resolved_event is e]
+                    if not got:
+                        out.append(Violation("C02/waiting_invocation_not_woken",
+                                             f"step {name} (input {uid}) waits for T{ET.TY_ID.get(type(e))} {pending[(name, uid)][2]}; matching event uid={getattr(e, 'uid', None)} "
+                                             f"was not handed to it as its wait result", _replay(tr)))
+                        return out
+                for name, ws in c.after.workers.items():
+                    done = {w.waiter_id for w in ws.collected_waiters if w.resolved_event is not None}
+                    for k in [k for k, v in pending.items() if k[0] == name and v[0] in done]:
+                        del pending[k]
+            elif isinstance(c.tick, (T.TickCancelRun, T.TickTimeout)):
+                pending.clear()
     # (d) outputs of steps are re-queued exactly once (unless the run ends first)
     for c in _runner_calls(tr):
         if not isinstance(c.tick, T.TickStepResult) or c.error is not None:
